@@ -859,6 +859,9 @@ def _dedup(ts):
 def strip_ptr(t):
     """Strip identity pointer conversions."""
     while True:
+        if t[0] == 'refto':
+            t = ('ref', t[2])
+            continue
         if t[0] == 'cast' and (t[1].startswith('Ptr') or t[1].startswith('PointerCoercion') or t[1] in ('Transmute',)):
             t = t[3]
             continue
